@@ -7,6 +7,8 @@ import orc
 
 
 def run(res, replay=None):
+    # structural tie of the searches on the distribution function (_update, _cum, quantile, _get_absorption_time, t_max): translate the CURRENT source and re-check proofs/GenSearchEquiv.v
+    import translate_step; (res.proof is not None) and translate_step.run(res.proof, pid=res.pid, tie='search')
     rng = random.Random(res.seed)
     res.rule = ('scaling stream: pairs (configuration, c = 2^j) with population sizes spread over [1e-3, 1e9] (sizes '
                 '2^e, e in [-9, 29]), Kingman / Beta (scaled, time scale N^(alpha-1)) / Dirac (scaled, N^2), 1-2 demes, '
@@ -61,6 +63,12 @@ def run(res, replay=None):
             s = {'n_items': [['a', rng.choice([4, 5])]], 'model': {'kind': 'kingman'},
                  'pop_sizes': {'a': {'0.0': n0, repr(rng.choice([2.0, 4.0, 5.0]) * n0): n0 / 2.0 ** 20}}}
             cases.append({'spec': s, 'c': 2.0 ** rng.choice([-3, 10, 20]), 'regularize_check': True})
+    if not replay:
+        # designed: a large present population followed by a much smaller ancestral one (the horizon of the whole demography is
+        # far shorter than that of the first epoch alone and far longer than that of the last one alone)
+        for n0, n1, t1 in ((4.0, 0.25, '1.0'), (0.5, 8.0, '0.5')):
+            cases.append({'spec': {'n_items': [['a', 3]], 'model': {'kind': 'kingman'}, 'pop_sizes': {'a': {'0.0': n0, t1: n1}}},
+                          'c': 2.0 ** 3, 'regularize_check': False})
     results = orc.run_oracle(res, 'scaling', cases)
     res.extra['input_distribution'] = {
         'c': sorted({c['c'] for c in cases}),
